@@ -1385,7 +1385,7 @@ func BuildScript(asserts []*Term, intVars bool) *Script {
 				id[k] = k
 			}
 			fmt.Fprintf(&sb, "(assert (=> %s (= %s %s)))\n", eqs(id), ra, rb)
-			if a.Name == "fmul" && len(a.Args) == 2 {
+			if (a.Name == "fmul" || a.Name == "ix_*" || a.Name == "ix_+") && len(a.Args) == 2 {
 				fmt.Fprintf(&sb, "(assert (=> %s (= %s %s)))\n", eqs([]int{1, 0}), ra, rb)
 			}
 			// monotonicity of the correctly rounded operations (IEEE 754):
